@@ -15,6 +15,8 @@
        (constructed in place for the pool containers, copy-constructed from the argument for
        the others);
      - a destructor event names the place the object had;
+     - an element disappears only through a removal: insertions take nothing away, a remove
+       operation at most one element;
      - no two live elements share a place;  the other container is not touched;
      - PoolList / PoolMap never copy, move or assign an element;
      - item blocks are only released by the destructor. *)
@@ -112,6 +114,19 @@ Definition pool_event_ok (e : event) : bool :=
 Definition is_free (e : event) : bool := match e with EFree _ => true | _ => false end.
 Definition is_destroy_op (o : op) : bool := match o with ODestroy => true | _ => false end.
 
+(* an element only disappears through a removal: how many elements of the selected container an
+   operation may take away (None = any number: clear, operator=, destructor) *)
+Definition removal_budget (o : op) : option nat :=
+  match o with
+  | OSel _ | OApp _ _ | OPre _ _ | OInsAt _ _ _ | OSwap => Some O
+  | ORemAt _ | ORemFront | ORemBack | ORemKey _ => Some 1%nat
+  | OClear | OAssign | ODestroy => None
+  end.
+Definition missing (prev now : list node) : list node :=
+  filter (fun p => negb (existsb (fun n => (n_id n =? n_id p)%nat) now)) prev.
+Definition removed_ok (o : op) (prev_sel now_sel : list node) : bool :=
+  match removal_budget o with None => true | Some b => (length (missing prev_sel now_sel) <=? b)%nat end.
+
 Definition max_id (l : list node) : nat := fold_right (fun n m => Nat.max (S (n_id n)) m) O l.
 
 Definition check_step (kd : kind) (st : sstate) (o : op) (now : obs) (ev : list event) : bool :=
@@ -130,7 +145,8 @@ Definition check_step (kd : kind) (st : sstate) (o : op) (now : obs) (ev : list 
   | _ =>
       (if sel then nodes_eqb (ob_a now) (ob_a prev) else nodes_eqb (ob_b now) (ob_b prev)) &&
       forallb (elem_ok kd o (negb sel) (ss_next st) ev (ob_a prev) (ob_b prev)) (ob_a now) &&
-      forallb (elem_ok kd o sel (ss_next st) ev (ob_b prev) (ob_a prev)) (ob_b now)
+      forallb (elem_ok kd o sel (ss_next st) ev (ob_b prev) (ob_a prev)) (ob_b now) &&
+      (if sel then removed_ok o (ob_b prev) (ob_b now) else removed_ok o (ob_a prev) (ob_a now))
   end.
 
 Definition next_sstate (st : sstate) (o : op) (now : obs) : sstate :=
